@@ -24,6 +24,10 @@ POLY_TEMPLATES = {
     "ell": ([(0, 0), (2, 0), (2, 1), (1, 1), (1, 2), (0, 2), (2, 2)],
             [[0, 1, 2, 3, 4, 5], [3, 2, 6, 4]]),                                   # L-shape + square
     "pent": ([(0, 0), (2, 0), (2, 2), (1, 1), (0, 2)], [[0, 1, 2, 3, 4], [2, 4, 3]]),
+    # long L and U: not star-shaped w.r.t. the mean of their face centres
+    "longL": ([(0, 0), (4, 0), (4, 1), (1, 1), (1, 2), (0, 2)], [[0, 1, 2, 3, 4, 5]]),
+    "longU": ([(0, 0), (5, 0), (5, 3), (4, 3), (4, 1), (1, 1), (1, 3), (0, 3)],
+              [[0, 1, 2, 3, 4, 5, 6, 7]]),
     "notch": ([(0, 0), (3, 0), (3, 2), (2, 2), (1.5, 0.5), (1, 2), (0, 2)],
               [[0, 1, 2, 3, 4, 5, 6], [3, 5, 4]]),                                 # heptagon + triangle
 }
@@ -72,6 +76,8 @@ def pre_apply(case, p):
 
 def build(case):
     g = build0(case)
+    if case.get("node_scale"):
+        g.nodes = g.nodes * float(case["node_scale"])      # dyadic factor: exact
     if case.get("pre_quat"):
         g.nodes = np.array([[float(x) for x in pre_apply(case, [F(c) for c in p])]
                             for p in g.nodes.T.tolist()]).T.copy()
@@ -206,7 +212,9 @@ class C20(Prop):
             "centroid before and after the motion; every grid is also moved IN PLACE after its geometry "
             "was computed and recomputed (history) and compared with a fresh grid; 25% of the 1-D/2-D "
             "grids are first embedded on a generic line / plane by a prior exact rigid motion; a DIRECTED "
-            "stream of 4 cases in every run: 1-D grids on generic lines and a 2-D grid in a generic "
+            "stream of 10 cases in every run (incl. long L / U cells turned upside down in place about "
+            "an in-plane axis, and 1-D grids of size 2^-10..2^-20 or unit size tilted by tiny exact "
+            "rotations off their axis): 1-D grids on generic lines and a 2-D grid in a generic "
             "plane, geometry computed, then moved in place by a half turn about a coordinate axis (quarter "
             "turn about z for a line with |a| = |b|) with or without translation; dyadic node perturbations (interior / all nodes; 3-D: "
             "tetrahedral grids only); quarter/half turns about coordinate axes (17%); 2-D stream with reversed faces (fallback + plane fitting); "
@@ -250,10 +258,45 @@ class C20(Prop):
         yield dict(base, kind=rng.choice(["cart", "tri"]), dims=[rng.randint(1, 3), rng.randint(1, 3)],
                    pre_quat=gen(), pre_shift=sh(), quat=rng.choice(half), shift=sh())
 
+    def _directed2(self, rng):
+        """(a) NON-CONVEX cells (long L / U) whose geometry is computed and which are then turned
+        upside down IN PLACE: half turn about an axis lying in the grid's plane (x or y for the
+        xy-plane; the image of the x-axis for a generic plane), with or without translation.
+        (b) small 1-D grids (dyadic scale 2^-10 .. 2^-20) and unit ones tilted by a tiny exact
+        rotation off their coordinate axis: the normals must be the ROTATED normals."""
+        def qmul(p, q):
+            a1, b1, c1, d1 = p
+            a2, b2, c2, d2 = q
+            return [a1 * a2 - b1 * b2 - c1 * c2 - d1 * d2, a1 * b2 + b1 * a2 + c1 * d2 - d1 * c2,
+                    a1 * c2 - b1 * d2 + c1 * a2 + d1 * b2, a1 * d2 + b1 * c2 - c1 * b2 + d1 * a2]
+        sh = lambda: ([[0, 1]] * 3 if rng.random() < 0.5 else
+                      [[rng.randint(-12, 12), rng.choice([1, 2, 4])] for _ in range(3)])
+        base = {"perturb": "none", "scale": 1.0 / 64, "pert": [0], "swap_faces": [], "dims": [1, 1]}
+        for tpl in ("longL", "longU"):
+            yield dict(base, kind="poly", template=tpl, scale2=[1.0, 1.0],
+                       clockwise=rng.random() < 0.5, flip_faces=rng.randrange(256),
+                       quat=rng.choice([[0, 1, 0, 0], [0, 0, 1, 0]]), shift=sh())
+        q0 = rng.choice([[1, 2, 3, 4], [2, -1, 3, 1], [3, 1, -2, 2]])
+        inplane = qmul(qmul(q0, rng.choice([[0, 1, 0, 0], [0, 0, 1, 0]])),
+                       [q0[0], -q0[1], -q0[2], -q0[3]])
+        yield dict(base, kind="poly", template=rng.choice(["longL", "longU"]), scale2=[1.0, 1.0],
+                   clockwise=rng.random() < 0.5, flip_faces=rng.randrange(256),
+                   pre_quat=q0, pre_shift=sh(), quat=inplane, shift=sh())
+        b1 = {"perturb": "none", "scale": 1.0 / 64, "pert": [0], "swap_faces": []}
+        tiny = lambda N: [N] + rng.choice([[0, 1, 0], [0, 0, 1], [0, 1, 1], [0, 2, -1], [1, 1, 2]])
+        yield dict(b1, kind="cart", dims=[rng.randint(1, 4)], node_scale=2.0 ** -rng.randint(10, 12),
+                   quat=tiny(rng.choice([2000, 10 ** 4])), shift=[[0, 1]] * 3)
+        yield dict(b1, kind="cart", dims=[rng.randint(1, 4)], node_scale=2.0 ** -rng.randint(10, 20),
+                   quat=tiny(rng.choice([10 ** 3, 10 ** 5])), shift=sh())
+        yield dict(b1, kind="cart", dims=[1], quat=tiny(rng.choice([10 ** 6, 4 * 10 ** 6])),
+                   shift=[[0, 1]] * 3)
+
     def generate(self, rng, n, tier):
-        for case in self._directed(rng):
+        k = 0
+        for case in list(self._directed(rng)) + list(self._directed2(rng)):
+            k += 1
             yield case
-        for case in self._generate(rng, max(0, n - 4), tier):
+        for case in self._generate(rng, max(0, n - k), tier):
             yield case
 
     def _generate(self, rng, n, tier):
@@ -311,6 +354,8 @@ class C20(Prop):
             case["swap_faces"] = ([rng.randint(0, 10 ** 6) for _ in range(rng.randint(1, 2))]
                                   if (nd == 2 and case["kind"] != "poly" and rng.random() < 0.25)
                                   else [])
+            if nd == 1 and rng.random() < 0.3:
+                case["node_scale"] = 2.0 ** -rng.randint(6, 20)
             if nd < 3 and rng.random() < 0.25:
                 # embed the grid on a generic line / plane BEFORE the first compute_geometry
                 pq = [0, 0, 0, 0]
